@@ -1,5 +1,8 @@
 #![allow(dead_code)]
 mod util;
+mod alloc;
+#[global_allocator]
+static GLOBAL: alloc::Counting = alloc::Counting;
 mod c18;
 mod c13;
 mod tyval;
@@ -7,6 +10,7 @@ mod c10;
 mod prog;
 mod c04;
 mod gen;
+mod c05;
 mod c19;
 
 fn main() {
@@ -24,6 +28,8 @@ fn main() {
         ["c10", "record", runs, path] => c10::record(runs.parse().unwrap(), path),
         ["c04", "replay", path] => c04::replay(path),
         ["c04", "record", runs, path] => c04::record(runs.parse().unwrap(), path),
+        ["c05", "replay", path] => c05::replay(path),
+        ["c05", "record", runs, path] => c05::record(runs.parse().unwrap(), path),
         _ => {
             eprintln!("usage: vh <prop> <replay|record> ...");
             std::process::exit(2);
